@@ -5,11 +5,31 @@ import hashlib, json, os, re, subprocess, sys, time
 
 VERIF = os.path.dirname(os.path.dirname(os.path.abspath(__file__)))
 TLA = os.path.join(VERIF, "tla")
-WORK = os.path.join(VERIF, "work")
+# Development aid only (bin/mutants --scratch): VERIF_REPO points the checks at a scratch copy of pacak/bpaf so that
+# a seeded change can be tried without touching /repo; everything such a run writes goes to separate directories.
+# The registered commands never set it: they build from /repo's working tree.
+REPO = os.environ.get("VERIF_REPO") or "/repo"
+ALT = REPO != "/repo"
+_sfx = ("-alt-" + hashlib.sha256(REPO.encode()).hexdigest()[:8]) if ALT else ""
+WORK = os.path.join(VERIF, "work" + _sfx)
 CACHE = os.path.join(VERIF, "cache")
-REPLAYS = os.path.join(VERIF, "replays")
-EVIDENCE = os.path.join(VERIF, "evidence")
+REPLAYS = os.path.join(VERIF, "replays" + _sfx)
+EVIDENCE = os.path.join(VERIF, "evidence" + _sfx)
 HARNESS_DIR = os.path.join(VERIF, "harness")
+
+
+def crate_dir(src):
+    """the crate to build: the committed one, or - for a scratch repository - a copy whose path dependency points there"""
+    if not ALT:
+        return src
+    dst = os.path.join(WORK, "crates", os.path.basename(src))
+    os.makedirs(dst, exist_ok=True)
+    subprocess.run(["rsync", "-a", "--delete", "--exclude", "target*", src + "/", dst + "/"], check=True)
+    for f in ("Cargo.toml",):
+        t = open(os.path.join(src, f)).read().replace('path = "/repo"', f'path = "{REPO}"')
+        t = t.replace('path = "../harness"', f'path = "{os.path.join(WORK, "crates", "harness")}"')
+        open(os.path.join(dst, f), "w").write(t)
+    return dst
 SEED = int(os.environ.get("VERIF_SEED", "1") or 1)
 TLC_WORKERS = int(os.environ.get("VERIF_TLC_WORKERS", "8"))
 
@@ -45,14 +65,15 @@ FEATURE_SETS = {
 def build_harness(fset="default", bin_name="harness"):
     """(re)build the harness against /repo's current working tree with the hooks enabled"""
     feats = FEATURE_SETS[fset]
-    tdir = os.path.join(HARNESS_DIR, "target" if fset == "default" else f"target-{fset}")
+    hdir = crate_dir(HARNESS_DIR)
+    tdir = os.path.join(hdir, "target" if fset == "default" else f"target-{fset}")
     cmd = ["cargo", "build", "--offline", "--quiet", "--no-default-features", "--target-dir", tdir,
            "--bin", bin_name]
     if feats:
         cmd += ["--features", ",".join(feats)]
     env = dict(os.environ, CARGO_NET_OFFLINE="true")
     t = time.time()
-    r = subprocess.run(cmd, cwd=HARNESS_DIR, text=True, capture_output=True, env=env)
+    r = subprocess.run(cmd, cwd=hdir, text=True, capture_output=True, env=env)
     if r.returncode != 0:
         errs = [l for l in r.stderr.splitlines() if l.startswith("error")]
         raise ToolError("harness build failed:\n" + r.stderr[-3000:] + "\n" + "\n".join(errs[:5]))
